@@ -64,6 +64,14 @@ def make_wrapped_fn(name, bs, form):
     return "fn %s%s(deps: (&D)) -> i32 { 0 }" % (name, g)
 
 
+def make_outlives_fn(name, bs, form):
+    """An outlives bound on the dependency parameter that names a lifetime of the fn: implied by `&'a D`, never a trait bound of the impl."""
+    bt = " + ".join([bname(b) for b in bs] + ["'a"])
+    if form == "inline":
+        return "fn %s<'a, D: %s>(deps: &'a D) -> i32 { 0 }" % (name, bt)
+    return "fn %s<'a, D>(deps: &'a D) -> i32 where D: %s { 0 }" % (name, bt)
+
+
 def make_relaxed_fn(name, bs, form):
     bt = " + ".join(["?Sized"] + [bname(b) for b in bs])
     if form == "inline":
@@ -76,6 +84,8 @@ def make_relaxed_fn(name, bs, form):
 def make_sync_fn(rng, name, bs, byval, form):
     if not byval and form in ("inline", "impl") and rng.random() < 0.1:
         return make_wrapped_fn(name, bs, form)
+    if not byval and form in ("inline", "where") and rng.random() < 0.08:
+        return make_outlives_fn(name, bs, form)
     if not byval and form in ("inline", "where", "impl") and not (form == "impl" and not bs) and rng.random() < 0.12:
         # a relaxed bound on the dependency (`?Sized`): legal on the fn, never a requirement of the impl
         return make_relaxed_fn(name, bs, form)
